@@ -697,7 +697,7 @@ class C13(Prop):
             if mn != 0:
                 res.broken.append(Broken("correspondence", "QMI_TcpTransport.MIN_PACKET_SIZE",
                                          f"theorem readUntilTimeout_le_n_tcp assumes MIN_PACKET_SIZE = 0, found {mn}"))
-            n = ctx.scale(60000, 600000)
+            n = ctx.scale(45000, 600000)
             scen = [_gen_scenario(ctx.rng, KINDS[i % 3], ctx.scale(10, 16)) for i in range(n)]
             self._differential(ctx, P, scen, res, "random")
             sweep = list(_sweep_scenarios())
